@@ -1,3 +1,100 @@
-(* placeholder while the pipeline is brought up *)
-From Coq Require Import ZArith List Bool.
-From Verif Require Import Lib.Corr Gen.C14 Model.C14.
+(* C14 — Caching bucket is transparent for immutable objects.
+   Property theorems only; each is closed by [exact] of a lemma from Proofs/C14*.v.
+   Model: Model/C14.v; the integer expressions of cachedGetRange and
+   fetchMissingSubranges come from Gen/C14.v (regenerated from
+   pkg/store/cache/caching_bucket.go on every run).
+   The model describes the code WITH repo_patches/C14-fix.patch (a GetRange at or past
+   the end of the object is answered by the underlying bucket; the unpatched code
+   panics there, see the corpus case 02-past-the-end). *)
+From Coq Require Import ZArith NArith List Bool.
+Import ListNotations.
+From Verif Require Import Lib.Corr Gen.C14 Model.C14 Proofs.C14 Proofs.C14_merge Proofs.C14_fetch Proofs.C14_main Proofs.C14_hist.
+Open Scope Z_scope.
+
+(* GetRange. For every world of immutable objects, every subrange size > 0, every
+   max-sub-requests value (any Z; <= 0 means unlimited), every offset >= 0 and
+   length > 0 (inside the object, overlapping its end, or past it), every cache whose
+   entries are truthful and every loss pattern [hits] (any subset of the cache may fail
+   to be returned): the bytes read through the caching bucket are exactly the bytes the
+   underlying bucket returns (no fuel exhaustion, no failed ReadFull, no out-of-range
+   slice, no missing subrange in the reader), an absent object is an error in both, and
+   the cache stays truthful. *)
+Theorem C14_get_range_eq : forall g w listing c hits name off len,
+  0 < c_S g -> 0 <= off -> 0 < len -> cache_ok w listing c ->
+  fst (fst (fst (get_range g w c hits name off len))) = reference w (OGetRange name off len) []
+  /\ cache_ok w listing (snd (get_range g w c hits name off len)).
+Proof. exact get_range_ok. Qed.
+Print Assumptions C14_get_range_eq.
+
+(* Request merging: the missing subranges, merged with limit 0 and then with a doubling
+   limit until at most M requests remain, stay ascending, non-overlapping and inside the
+   window, still cover every missing subrange, number at most M when M > 0, and the
+   doubling loop terminates within its fuel. *)
+Theorem C14_merge_ranges_cover : forall Sz ks ke M l lo, 0 < Sz -> chain Sz ks ke lo l ->
+  exists r, merge_loop (S (Z.to_nat (ke - ks))) (merge_ranges l 0) Sz M = Some r
+    /\ chain Sz ks ke lo r /\ (forall x, covered l x -> covered r x)
+    /\ (0 < M -> Z.of_nat (length r) <= M).
+Proof. exact merge_pipeline_ok. Qed.
+Print Assumptions C14_merge_ranges_cover.
+
+(* The in-memory subranges reader returns exactly obj[ro, ro+rem). *)
+Theorem C14_reader_eq : forall obj Sz, 0 < Sz -> forall h ks ke,
+  (forall k, ks <= k < ke -> hget h (k * Sz) = Some (sub_of obj Sz (k * Sz))) -> 0 <= ks ->
+  forall fuel ro rem acc,
+  ks * Sz <= ro -> 0 <= rem -> ro + rem <= blen obj -> ro + rem <= ke * Sz ->
+  ke - Z.quot ro Sz < Z.of_nat fuel ->
+  read_loop fuel Sz h ro rem acc = RBytes (acc ++ slice obj ro (ro + rem)).
+Proof. exact read_loop_ok. Qed.
+Print Assumptions C14_reader_eq.
+
+(* Get / Exists / Attributes / Iter / GetRange: one operation on a truthful cache answers
+   like the underlying bucket and leaves the cache truthful. *)
+Theorem C14_get_exists_attr_iter_eq : forall g w listing c o hits,
+  0 < c_S g -> valid_op o -> cache_ok w listing c ->
+  res_of (step g w c o hits (op_truth listing o)) = reference w o (op_truth listing o)
+  /\ cache_ok w listing (snd (step g w c o hits (op_truth listing o))).
+Proof. exact step_ok. Qed.
+Print Assumptions C14_get_exists_attr_iter_eq.
+
+(* Histories: any sequence of reads, each with its own arbitrary loss pattern, starting
+   from any truthful cache (in particular the empty one): every answer equals the
+   underlying bucket's. *)
+Theorem C14_history : forall g w listing, 0 < c_S g ->
+  forall ops c, cache_ok w listing c -> Forall (fun p => valid_op (fst p)) ops ->
+  run g w listing c ops = map (fun p => reference w (fst p) (op_truth listing (fst p))) ops.
+Proof. exact history_ok. Qed.
+Print Assumptions C14_history.
+
+(* Connection with the check: the case built from the model's own outputs on any valid
+   history passes corr_ok's history part and pred_ok's predicate. *)
+Theorem C14_case_pred : forall g w listing, 0 < c_S g ->
+  forall ops c, cache_ok w listing c -> Forall (fun p => valid_op (fst p)) ops ->
+  run_corr g w c (mk_obs g w listing c ops) = true
+  /\ forallb (fun x : obs =>
+                let '(o, _, truth, impl, under, _, _) := x in
+                result_eqb impl under && result_eqb (reference w o truth) under) (mk_obs g w listing c ops) = true.
+Proof. exact case_ok. Qed.
+Print Assumptions C14_case_pred.
+
+(* Non-vacuity: a 12-byte object, subrange size 1, at most one sub-request; the middle
+   is cached by the first read, the second read misses the first and the last byte and
+   needs four doublings of the merge limit; a read past the end; a lossy third read. *)
+Definition ex_g : cfg := {| c_S := 1; c_M := 1; c_maxsize := 0 |}.
+Definition ex_w : world := [(0%N, [10; 11; 12; 13; 14; 15; 16; 17; 18; 19; 20; 21]%N)].
+Definition ex_hits : list key := map (fun i => KSub 0 (Z.of_nat i) (Z.of_nat i + 1)) (seq 1 10) ++ [KAttr 0].
+Definition ex_ops : list (op * list key) :=
+  [(OGetRange 0 1 10, []); (OGetRange 0 0 12, ex_hits); (OGetRange 0 30 5, ex_hits); (OGetRange 0 3 100, [KSub 0 5 6])].
+Example C14_nonvacuous :
+  run ex_g ex_w (fun _ _ => []) [] ex_ops
+  = [RBytes [11; 12; 13; 14; 15; 16; 17; 18; 19; 20]%N;
+     RBytes [10; 11; 12; 13; 14; 15; 16; 17; 18; 19; 20; 21]%N;
+     RBytes [];
+     RBytes [13; 14; 15; 16; 17; 18; 19; 20; 21]%N]
+  /\ snd (fst (fst (step ex_g ex_w (snd (step ex_g ex_w [] (OGetRange 0 1 10) [] [])) (OGetRange 0 0 12) ex_hits []))) = [(0, 12)]
+  /\ cache_ok ex_w (fun _ _ => []) [] /\ 0 < c_S ex_g
+  /\ Forall (fun p => valid_op (fst p)) ex_ops.
+Proof.
+  split; [vm_compute; reflexivity|]. split; [vm_compute; reflexivity|].
+  split; [apply cache_ok_nil|]. split; [reflexivity|].
+  repeat constructor; simpl; try discriminate.
+Qed.
